@@ -129,6 +129,13 @@ func init() {
 		skelTarget{Name: "C04.MetricOperationsFromReader", File: "pkg/metric_storage/operation/operation.go", Recv: "", Func: "MetricOperationsFromReader",
 			Fields: []string{"Set", "Add", "Action", "Value"},
 			Calls:  []string{"NewDecoder", "Decode", "More", "Token", "Buffered", "InputOffset", "Unmarshal", "ReadAll"}},
+		// Model/Wait.cancelTaskDelay: the flag is set only while a wait is in progress (waitForTask itself: skeleton TaskQueue.waitForTask)
+		skelTarget{Name: "C04.CancelTaskDelay", File: "pkg/task/queue/task_queue.go", Recv: "TaskQueue", Func: "CancelTaskDelay",
+			Fields: []string{"cancelDelay", "waitInProgress"}},
+		// Model/HookOutput.ProcEnd.success: cmd.Run() != nil is the failure, no look at the exit code
+		skelTarget{Name: "C04.RunAndLogLines", File: "pkg/executor/executor.go", Recv: "Executor", Func: "RunAndLogLines",
+			Fields: []string{"ProcessState"},
+			Calls:  []string{"Run", "Start", "Wait", "ExitCode", "Exited", "Success", "Errorf", "Bytes", "Signaled"}},
 	)
 }
 
